@@ -171,6 +171,38 @@ macro_rules! frame_harnesses {
                 kani::cover!(n == 3 && !inclusive);
                 kani::cover!(n == 2 && inclusive && ea as u128 + SZ == 1u128 << 52);
             }
+
+            #[kani::proof]
+            #[kani::unwind(11)]
+            fn c07t_frame_range_full_iteration_le8() {
+                let s = any_frame::<$S>();
+                let e = any_frame::<$S>();
+                let (sa, ea) = (s.start_address.as_u64(), e.start_address.as_u64());
+                let inclusive: bool = kani::any();
+                let n = if inclusive {
+                    if ea >= sa { ((ea - sa) as u128 / SZ) + 1 } else { 0 }
+                } else if ea > sa { (ea - sa) as u128 / SZ } else { 0 };
+                kani::assume(n <= 8);
+                let mut count: u128 = 0;
+                let mut expect = sa as u128;
+                if inclusive {
+                    for f in PhysFrame::range_inclusive(s, e) {
+                        vp!(C07, f.start_address.as_u64() as u128 == expect, "inclusive frame iteration not ascending");
+                        expect += SZ;
+                        count += 1;
+                    }
+                } else {
+                    for f in PhysFrame::range(s, e) {
+                        vp!(C07, f.start_address.as_u64() as u128 == expect, "exclusive frame iteration not ascending");
+                        expect += SZ;
+                        count += 1;
+                    }
+                }
+                vp!(C07, count == n, "frame range yielded a different number of items than len()");
+                kani::cover!(n == 8 && inclusive);
+                kani::cover!(n == 7 && !inclusive);
+                kani::cover!(n == 2 && inclusive && ea as u128 + SZ == 1u128 << 52);
+            }
         }
     };
 }
